@@ -101,6 +101,7 @@ SHARED = {
         ("c01", {"C01.template": "C13.variants", "C01.base-agreement": "C13.native-variants"}, "the predicate shapes are decided per variant on lifted symbols; each variant must compute those symbols from its own operands", PRED),
     ],
     "C14": [
+        ("c07", {"C07.obj-agreement": "C14.numba-obj-synonyms"}, "constructing through a synonym inside compiled code must build what the interpreter builds for that spelling", None),
         ("c06", {"C06.obj": "C14.obj-synonyms"}, "vector.obj through any synonym builds the momentum-flavored vector with the value in the geometric slot", None),
         ("c05", {"C05.operators": "C14.operator-tables"}, "the flavor never changes a number: Momentum rows of the ufunc/behavior tables equal the Vector rows", None),
         ("c06", {"C06.check-names": "C14.constructor-synonyms"}, "constructing through a synonym stores the value under the geometric coordinate", None),
